@@ -721,7 +721,9 @@ def _handle_harmony(e, position, part):
         # TODO: handle kind text which is other kind of annotation also root
         kind = e.find("kind").get("text")
         root = e.find("root").find("root-step").text
-        part.add(score.ChordSymbol(root=root, kind=kind), position)
+        # the bass note, as save_musicxml writes it
+        bass = get_value_from_tag(e, "bass/bass-step", str)
+        part.add(score.ChordSymbol(root=root, kind=kind, bass=bass), position)
         text = None
     else:
         text = None
